@@ -86,6 +86,7 @@ type VC struct {
 	elemInfo     map[Term]elemInfo
 	slicePtr     map[Term]Term
 	prov         map[Term]Term // value term -> untouched entry-state value it was loaded from
+	trusted      map[Term]bool // terms trusted to be non-nil (entry parameters, initialised globals, getter results)
 	exit         *State
 	exitResults  []Term
 }
@@ -577,6 +578,9 @@ func (fr *Frame) define(v ssa.Value, t Term) Term {
 	}
 	if b, ok := vc.boxes[t]; ok {
 		vc.boxes[name] = b
+	}
+	if vc.trusted[t] {
+		vc.trusted[name] = true
 	}
 	if ei, ok := vc.elemInfo[t]; ok {
 		vc.elemInfo[name] = ei
